@@ -9,14 +9,15 @@ import (
 
 // Case is one history (engine "cred") or one race (engine "conc").
 type Case struct {
-	Kind   string   `json:"kind"` // seq | race
-	PSKLen int      `json:"psk_len"`
-	TCP    bool     `json:"tcp"`
-	UDP    bool     `json:"udp"`
-	Init   Doc      `json:"init"`
-	Ops    []string `json:"ops"`            // protocol lines (seq: the history; race: the sequential prefix)
-	Race   []string `json:"race,omitempty"` // race: the operations started together
-	Reps   int      `json:"reps,omitempty"` // race: how often the race is repeated from the same start
+	Kind     string   `json:"kind"` // seq | race
+	PSKLen   int      `json:"psk_len"`
+	TCP      bool     `json:"tcp"`
+	UDP      bool     `json:"udp"`
+	Fallback bool     `json:"fallback,omitempty"` // the TCP server has an unsafe fallback address
+	Init     Doc      `json:"init"`
+	Ops      []string `json:"ops"`            // protocol lines (seq: the history; race: the sequential prefix)
+	Race     []string `json:"race,omitempty"` // race: the operations started together
+	Reps     int      `json:"reps,omitempty"` // race: how often the race is repeated from the same start
 }
 
 func (c Case) initLine() string {
@@ -34,7 +35,11 @@ func (c Case) initLine() string {
 }
 
 func (c Case) sig() string {
-	return c.initLine() + "|" + strings.Join(c.Ops, "|") + "||" + strings.Join(c.Race, ";")
+	fb := ""
+	if c.Fallback {
+		fb = "fb|"
+	}
+	return fb + c.initLine() + "|" + strings.Join(c.Ops, "|") + "||" + strings.Join(c.Race, ";")
 }
 
 var names = []string{"a", "b", "c", "d"}
@@ -232,6 +237,7 @@ func genSeq(r *common.Rng, maxOps int) Case {
 	default:
 		c.TCP, c.UDP = true, true
 	}
+	c.Fallback = c.TCP && r.Chance(1, 4)
 	c.Init = genInit(g)
 	n := r.Range(1, maxOps)
 	pendingEdit := Doc("")
